@@ -27,15 +27,24 @@ for m in ("m1", "m2"):
     if not os.path.exists(patch):
         continue
     res = {"mutant": m}
-    # --- (1) demonstration in the seeding worktree
+    # --- (1) demonstration in the seeding worktree (done once; a re-evaluation after the checks
+    # were strengthened reuses the recorded outcome)
+    prev = None
+    if os.path.exists(f"{seed}/eval.json"):
+        prev = next((r for r in json.load(open(f"{seed}/eval.json")) if r["mutant"] == m and r.get("demo_with_change")), None)
     wt = f"{seed}/repo"
-    sh("git checkout -q -- . && git clean -fdq", cwd=wt)
-    first = open(demo).read().split("\n", 3)[:3] if os.path.exists(demo) else []
+    if prev:
+        for k in ("demo_place", "demo_without_change", "patch_applies_in_seed_worktree", "demo_with_change", "crate_tests_with_change"):
+            res[k] = prev.get(k)
+        first = []
+    else:
+        sh("git checkout -q -- . && git clean -fdq", cwd=wt)
+        first = open(demo).read().split("\n", 3)[:3] if os.path.exists(demo) else []
     place = None
     for line in first:
         mm = re.search(r"(noodles-[a-z]+/(?:tests|src|examples)/[A-Za-z0-9_/]+\.rs)", line)
         if mm: place = mm.group(1); break
-    res["demo_place"] = place
+    if not prev: res["demo_place"] = place
     if place:
         crate = place.split("/")[0]
         kind = place.split("/")[1]
